@@ -848,6 +848,12 @@ class Group(System):
                         graph.add_node(comp, local=False)
                         empty_comps.add(comp)
 
+        # the states of an implicit component feed back into its residuals, so they are also
+        # inputs of the component as far as dependency is concerned
+        implicit_comps = set(s.pathname for s in self.system_iter(recurse=True, typ=Component)
+                             if not s.is_explicit(is_comp=True))
+        continuous_outs = self._var_allprocs_abs2meta['output']
+
         resolver = self._resolver
         for direction in ('input', 'output'):
             isout = direction == 'output'
@@ -861,6 +867,8 @@ class Group(System):
 
                 if isout:
                     graph.add_edge(comp, vname)
+                    if comp in implicit_comps and vname in continuous_outs:
+                        graph.add_edge(vname, comp)
                 else:
                     graph.add_edge(vname, comp)
 
@@ -1172,13 +1180,27 @@ class Group(System):
 
         missing_responses = set()
         for pathname, missing in self._missing_partials.items():
-            inputs = [n for n, _ in self._dataflow_graph.in_edges(pathname)]
             outputs = [n for _, n in self._dataflow_graph.out_edges(pathname)]
+            outset = set(outputs)
+            inputs = [n for n, _ in self._dataflow_graph.in_edges(pathname) if n not in outset]
 
             self._dataflow_graph.remove_node(pathname)
 
+            # The states of an implicit component also depend on each other through the declared
+            # state/state partials, so an output can depend on an input without having a partial
+            # with respect to it.
+            state_deps = set()
+            try:
+                subjac_keys = self._get_subsystem(pathname)._subjacs_info
+            except AttributeError:
+                subjac_keys = ()
+            for of, wrt in subjac_keys:
+                if of != wrt and of in outset and wrt in outset:
+                    self._dataflow_graph.add_edge(wrt, of)
+                    state_deps.add(of)
+
             for output in outputs:
-                found = False
+                found = output in state_deps
                 for inp in inputs:
                     if (output, inp) not in missing:
                         self._dataflow_graph.add_edge(inp, output)
